@@ -954,7 +954,7 @@ def should_unwrap(obj: type) -> bool:
 
     This is useful for determining what type to use at run-time for coercion.
     """
-    return (not isliteral(obj)) and any(x(obj) for x in _UNWRAPPABLE)
+    return any(x(obj) for x in _UNWRAPPABLE)
 
 
 @compat.cache
